@@ -280,6 +280,15 @@ def r3(rep, prog):
             rep.check(bool(lp) and not inside, R, "json_positions_per_path is not cleared inside the loop over the JSON values", "cleared before the loop",
                       "index_document clears json_positions_per_path inside the loop over the values of a JSON field: the positions of the second value of a path restart at 0 and overlap those of the first",
                       site=site(b, inside[0]) if inside else site(b, jb))
+            # (a') per field: once the loop over one field's values is left, the next index_json_value
+            # (another JSON field of the same document: path ids are shared by all JSON fields of the
+            # segment) is reached only through a clear
+            if lp:
+                exits = tuple(sorted({s for x in lp for s in b.succ(x) if s not in lp}))
+                again = b.reachable(exits, blocked=frozenset(clears)) if exits else set()
+                rep.check(jb not in again, R, "json_positions_per_path is cleared between two JSON fields of a document", "every path from the exit of the loop over one field's values to the next index_json_value crosses the clear",
+                          "index_document reaches index_json_value for a second JSON field of the same document without clearing json_positions_per_path: a path shared by two JSON fields continues the first field's positions in the second",
+                          site=site(b, jb))
     # (b) text: the IndexingPosition given to index_text and read for the field norm
     IT = [(bi, t) for bi, t in b.calls() if (t.get("f") or "").endswith("PostingsWriter::index_text")]
     rec = [(bi, t) for bi, t in b.calls() if (t.get("res") or t.get("f") or "").endswith("FieldNormsWriter::record")]
